@@ -47,7 +47,7 @@ func b64d(s string) []byte {
 }
 
 func c09(r *hx.Run) {
-	r.Rule = "for each of the 5 key types: compact JWS produced independently (fx.CompactJWS) and by the library's own signers over {alg}, {alg,kid}, {alg,b64:false} headers x 3 payloads must verify under the matching JWK; every single-bit flip of every byte of the decoded payload and signature, every header byte substitution that changes the parsed header, every foreign key (9 others), and the signature classes (empty, +-1, half, double, r/s zero, =n, swapped, DER) must be rejected while (r, n-s) verifies; grammar of malformed compact strings / headers / JWKs must give an error and never a panic. Non-trivial: distinct (JWS, key) pairs that reach signature verification."
+	r.Rule = "for each of the 5 key types: compact JWS produced independently (fx.CompactJWS) and by the library's own signers (SignModel, SignPayload, and NewJWS with every split of the headers between the caller's protected set and the signer's headers) over {alg}, {alg,kid}, {alg,b64:false} headers x 3 payloads must verify under the matching JWK; every single-bit flip of every byte of the decoded payload and signature, every header byte substitution that changes the parsed header, every foreign key (9 others), and the signature classes (empty, +-1, half, double, r/s zero, =n, swapped, DER) must be rejected while (r, n-s) verifies; grammar of malformed compact strings / headers / JWKs must give an error and never a panic. Non-trivial: distinct (JWS, key) pairs that reach signature verification."
 	payloads := [][]byte{[]byte(`{"a":1}`), []byte(`{"deltaHash":"EiAbc","updateKey":{"crv":"Ed25519","kty":"OKP","x":"AA"}}`), bytes.Repeat([]byte("x"), 300)}
 	allKeys := map[string][]*fx.Key{}
 	var flat []*fx.Key
@@ -273,6 +273,51 @@ func c09(r *hx.Run) {
 						r.Violation("accepts-foreign-key:"+kt, cid, "library-signed JWS verifies under a foreign key", nil)
 					}
 					r.Nontrivial(cid)
+				}
+				// NewJWS with every split of the headers between the caller's protected set and the signer's own headers: whatever is
+				// signed is what is serialized, so the result verifies
+				sh := signer.Headers()
+				splits := map[string]jws.Headers{"same-as-signer": sh, "empty": {}, "nil": nil, "typ-only": {"typ": "JWT"}, "superset": {"typ": "JWT"}}
+				if alg, ok := sh["alg"]; ok {
+					splits["alg-only"] = jws.Headers{"alg": alg}
+					splits["superset"]["alg"] = alg
+				}
+				if kidv, ok := sh["kid"]; ok {
+					splits["kid-only"] = jws.Headers{"kid": kidv}
+					splits["superset"]["kid"] = kidv
+				}
+				for sn, protected := range splits {
+					cid := fmt.Sprintf("%s|p%d|newjws|%s", caseID, pi, sn)
+					if !r.Want(cid) {
+						continue
+					}
+					var compact string
+					var serr error
+					func() {
+						defer func() {
+							if pn := recover(); pn != nil {
+								serr = fmt.Errorf("panic: %v", pn)
+							}
+						}()
+						var obj *verifhooks.JSONWebSignature
+						obj, serr = verifhooks.NewJWS(protected, nil, payload, signer)
+						if serr == nil {
+							compact, serr = obj.SerializeCompact(false)
+						}
+					}()
+					r.Eval()
+					r.State()
+					r.Nontrivial(cid)
+					if serr != nil {
+						r.Violation("lib-sign-error:"+kt+":newjws:"+sn, cid, serr.Error(), nil)
+						continue
+					}
+					if ok, err := verifyNoPanic(r, cid, compact, libJWK); !ok {
+						r.Violation("lib-signed-rejected:"+kt+":newjws:"+sn, cid, fmt.Sprintf("JWS created by NewJWS (protected headers: %s, signer headers %v) does not verify under the matching key: %v", sn, sh, err), map[string]interface{}{"jws": compact})
+					}
+					if ok, _ := verifyNoPanic(r, cid+"|foreign", compact, allKeys[kt][1].JWK); ok {
+						r.Violation("accepts-foreign-key:"+kt, cid, "library-signed JWS verifies under a foreign key", nil)
+					}
 				}
 			}
 		}
